@@ -145,6 +145,9 @@ FwdRetention(S, S2, t0, t1) ==
   Chk("C14:forward-retention",
       \A nd \in NewDels(S, S2) : nd[2] \in DOMAIN S.subs =>
          In(S2.del[nd].exp, t0 + S.subs[nd[2]].mttl, t1 + S.subs[nd[2]].mttl))
+  \cup Chk("C14:forward-delay",
+      \A nd \in NewDels(S, S2) : nd[2] \in DOMAIN S.subs =>
+         In(S2.del[nd].at, t0 + S.subs[nd[2]].delay, t1 + S.subs[nd[2]].delay))
   \* C01: a forwarded copy that is born (nearly) expired is a lost message - the source delivery
   \* has been retired and nothing will ever offer the copy
   \cup Chk("C01:forwarded-copy-not-retained",
